@@ -56,7 +56,17 @@ RULE = ("op histories over a pool of 4 tendrils, 5 formats × {NonAtomic, Atomic
         "well-formed UTF-8 byte ranges, stray continuation bytes, all lead × trail surrogate joins in every "
         "representation (thorough: every pair of leading bytes × 6 tails); exhaustive push_tendril grid over one shared "
         "64-byte buffer (receiver and argument views with offsets 0,1,5,8,9,16,20,31 × lengths 0,1,8,9,10,16, produced "
-        "by subtendril and by pop_front/pop_back, both orders); then seeded random histories. "
+        "by subtendril and by pop_front/pop_back, both orders); then seeded random histories; family api2 (engine "
+        "tendril2, oracle-only, no Lean model): the rest of the public API as one-call cases over operands in 5 "
+        "representations (inline / owned / shared / shared with offset / sole owner with offset) x lengths "
+        "0,1,7,8,9,16,17,33,100 + boundary contents x 5 formats x 2 atomicities: into_bytes, try_reinterpret(_view) "
+        "and the unchecked variants to every format (incl. every ill-formed edge sequence from every laxer format), "
+        "as/into_superset, try_as/into_subset, ==, Hash (equal across representations, equal to the [u8] hash), "
+        "Ord/PartialOrd, PartialEq<str>, Borrow/AsRef/Deref + HashMap lookup by &[u8], Debug, Display with width / "
+        "precision, String <-> tendril conversions, FromStr, From<&slice>, to_tendril, fmt::Write, Tendril::format / "
+        "format_tendril!, io::Write, read_to_tendril from chunked / interrupted / failing readers (growth steps up to "
+        "the 64 KiB cap), extend_with_byte, every Extend / FromIterator impl, SendTendril::from round trips, "
+        "TendrilSink::one / from_iter / read_from; expected values from a Python bytes / str reference. "
         "non-trivial = some op changed a tendril or returned a character / error; distinct = distinct (case, output)")
 EXPLANATION = ("theorems: every op of the model refines the byte-list spec on its own slot and leaves abs of every "
                "other slot unchanged, for all heaps/pools satisfying WF, WF is preserved, lifted to all histories")
@@ -742,7 +752,10 @@ def extra_evidence(check):
     return {"formats": FORMATS, "boundary_lengths": LENS,
             "families": "cover-<representation> × probes, cover-adjacent (push_tendril fast path), "
                         "cover-validate (edges of the well-formed UTF-8 ranges, surrogate joins), cover-pusht-grid (all receiver × "
-                        "argument views (offset, length) of one shared 64-byte buffer, via subtendril and via pops), random"}
+                        "argument views (offset, length) of one shared 64-byte buffer, via subtendril and via pops), random, "
+                        "api2-<op> (engine tendril2, oracle-only; ops: %s)" % " ".join(API2_OPS),
+            "api2_shapes": "i as built, o owned, s shared, x shared with offset, p sole owner with offset",
+            "api2_lengths": API2_LENS}
 
 
 # ============================================================================= family api2
@@ -1131,6 +1144,8 @@ def api2_variants(fmt, b):
 
 
 API2_INVALID = [unhx(s) for s in EDGE_SEQS]
+# first / last scalar value of every UTF-8 length
+UTF8_BOUNDS = "\x00\x7f\x80\u07ff\u0800\ud7ff\ue000\uffff\U00010000\U0010ffff".encode("utf-8", "surrogatepass")
 
 
 def api2_cases(tier, rng):
@@ -1188,14 +1203,23 @@ def api2_cases(tier, rng):
                         add("tostring", fmt, atom, t1)
                         for n in (0, 1, 8, 9):
                             add("wstr", fmt, atom, t1, opnd("r", content("utf8", n, 2)), str((7, 0, 1234, 56)[n % 4]))
-                        for s in (b"", b"a", "é€".encode(), "😀😀😀".encode(), content("utf8", 9, 1), content("utf8", 17, 2),
-                                  b"abcdefgh" * 5):
+                        for s in (b"", b"a", "\u00e9\u20ac".encode(), "\U0001f600\U0001f600\U0001f600".encode(), content("utf8", 9, 1),
+                                  content("utf8", 17, 2), b"abcdefgh" * 5, UTF8_BOUNDS):
                             add("extc", fmt, atom, t1, opnd("r", s))
+                        add("wstr", fmt, atom, t1, opnd("r", UTF8_BOUNDS), "1000")
+                        add("exts", fmt, atom, t1, opnd("r", UTF8_BOUNDS), opnd("r", UTF8_BOUNDS[:1]))
                     if fmt == "bytes":
                         for a in (0, 1, 8, 9, 17):
                             add("iowrite", fmt, atom, t1, opnd("r", content("bytes", a, 1)),
                                 opnd("r", content("bytes", (a * 5 + 3) % 19, 2)))
                             add("extu8", fmt, atom, t1, opnd("r", content("bytes", a, 4)))
+                        # every byte value goes through the byte-wise paths
+                        for extra in (b"\xff", b"\xff\x00\x80\x7f", bytes(range(256))):
+                            add("extu8", fmt, atom, t1, opnd("r", extra))
+                            add("iowrite", fmt, atom, t1, opnd("r", extra), opnd("r", extra[::-1]))
+                            add("exts", fmt, atom, t1, opnd("r", extra), opnd("r", extra[:1]))
+                        add("read", fmt, atom, t1, opnd("r", bytes(range(256))), "7,1", "3", "-1")
+                        add("sink", fmt, atom, t1, opnd("r", bytes(range(256))), "100", "0", "-1")
                         for n in sorted(set([0, 1, 7, 8, 9, 100, max(0, 8 - len(b)), max(0, 9 - len(b))])):
                             add("extb", fmt, atom, t1, str(n), str((0, 0x61, 0xff)[n % 3]))
         # operand-free constructors
@@ -1210,7 +1234,7 @@ def api2_cases(tier, rng):
         for sh in SHAPES:
             for s in (b"a\"b\\c\n\t\r\x00'", b"\x01\x7f", "\u0080\u009f".encode(), "á".encode(), b"'"):
                 add("debug", "utf8", atom, opnd(sh, s))
-        for s in (b"", b"x", "é".encode(), b"1234567", b"12345678", b"0123456789abcdef"):
+        for s in (b"", b"x", "\u00e9".encode(), b"1234567", b"12345678", b"0123456789abcdef", UTF8_BOUNDS):
             for n in (0, 5, 255, 123456):
                 add("format", "utf8", atom, opnd("r", s), str(n))
     # validation: ill-formed bytes looked at as the stricter formats, from every less strict source
